@@ -19,7 +19,7 @@ WORK = os.path.join(ROOT, ".work")
 REPLAY = os.path.join(ROOT, "replay")
 EVID = os.path.join(ROOT, "evidence")
 CORPUS = os.path.join(ROOT, "corpus")
-BIN = os.path.join(HARNESS, "target", "release", "dsverif")
+BINDIR = os.path.join(HARNESS, "target", "release")
 
 FORBIDDEN = re.compile(
     r"\b(Admitted|admit|Axiom|Axioms|Parameter|Parameters|Conjecture|Conjectures|"
@@ -129,14 +129,15 @@ def strip_comments(text):
     return "".join(out)
 
 
-def check_obligations(prop):
+def check_obligations(prop, cfg=None):
     """Compile props/<prop>.v (full check by the kernel), list its theorems and
     the assumptions each depends on.  Returns dict."""
     src = os.path.join(COQ, "props", prop + ".v")
     text = strip_comments(open(src).read())
     theorems = re.findall(r"^\s*(?:Theorem|Corollary)\s+(\w+)", text, re.M)
     printed = re.findall(r"^\s*Print Assumptions\s+(\w+)\s*\.", text, re.M)
-    rc, out = coq_make(["props/%s.vo" % prop, "run/Run_%s.vo" % prop])
+    runmod = (cfg or {}).get("run_module", "Run_" + prop)
+    rc, out = coq_make(["props/%s.vo" % prop, "run/%s.vo" % runmod])
     res = {"theorems": theorems, "make_rc": rc, "make_tail": out[-3000:], "assumptions": {},
            "failed": []}
     if rc != 0:
@@ -225,8 +226,9 @@ def eval_cases(prop, cfg, lines, shards=16, chunk=150):
 
 # ------------------------------------------------------------- Rust side
 
-def build_harness():
-    """cargo build of the harness against /repo's current working tree."""
+def build_harness(bins=None):
+    """cargo build of the harness (all bins, or the named ones) against /repo's
+    current working tree."""
     with Lock("cargo"):
         lock_src = "/repo/Cargo.lock"
         lock_dst = os.path.join(HARNESS, "Cargo.lock")
@@ -235,7 +237,10 @@ def build_harness():
         if not os.path.exists(lock_dst) or file_sha(lock_src) != read_marker():
             shutil.copy(lock_src, lock_dst)
             write_marker(file_sha(lock_src))
-        rc, out = run(["cargo", "build", "--offline", "--release"], cwd=HARNESS, timeout=3000)
+        cmd = ["cargo", "build", "--offline", "--release"]
+        for b in (bins or []):
+            cmd += ["--bin", b]
+        rc, out = run(cmd, cwd=HARNESS, timeout=3000)
     return rc, out
 
 
@@ -253,11 +258,20 @@ def write_marker(s):
     open(os.path.join(WORK, "lock.sha"), "w").write(s)
 
 
+def split_sub(sub):
+    """a harness entry is "bin" or "bin:mode" """
+    if ":" in sub:
+        b, m = sub.split(":", 1)
+        return b, ["--mode", m]
+    return sub, []
+
+
 def harness_lines(sub, args, timeout=3000, env=None):
     e = dict(os.environ)
     if env:
         e.update(env)
-    p = subprocess.run([BIN, sub] + args, stdout=subprocess.PIPE, stderr=subprocess.PIPE,
+    b, extra = split_sub(sub)
+    p = subprocess.run([os.path.join(BINDIR, b)] + args + extra, stdout=subprocess.PIPE, stderr=subprocess.PIPE,
                        timeout=timeout, env=e)
     if p.returncode != 0:
         raise RuntimeError("harness %s %s failed (rc %d): %s" %
@@ -300,7 +314,7 @@ def check_property(prop, cfg, tier, seed, replay_file=None):
 
     # 1. proof obligations
     bad = forbidden_scan()
-    ob = check_obligations(prop)
+    ob = check_obligations(prop, cfg)
     if bad:
         ob["failed"] += ["forbidden construct: " + b for b in bad]
     n_ob = len(ob["theorems"])
@@ -314,13 +328,14 @@ def check_property(prop, cfg, tier, seed, replay_file=None):
     model_runs = True
     if ob["make_rc"] != 0:
         # the model (no proofs in it) may still evaluate: try to build Run_ alone
-        rc, _ = coq_make(["run/Run_%s.vo" % prop])
+        rc, _ = coq_make(["run/%s.vo" % cfg.get("run_module", "Run_" + prop)])
         model_runs = rc == 0
         log("proof obligations of %s do not build; searching for a failing input" % prop)
         thorough = True
 
     # 2. implementation side
-    rc, out = build_harness()
+    subs = cfg["harness"] if isinstance(cfg["harness"], list) else [cfg["harness"]]
+    rc, out = build_harness(sorted(set(split_sub(x)[0] for x in subs)))
     harness_ok = rc == 0
     if not harness_ok:
         problems.append({"kind": "correspondence", "what": "harness does not build against /repo",
@@ -329,7 +344,6 @@ def check_property(prop, cfg, tier, seed, replay_file=None):
     lines = []
     codes = []
     if harness_ok:
-        subs = cfg["harness"] if isinstance(cfg["harness"], list) else [cfg["harness"]]
         env = cfg.get("env")
         try:
             if replay_file:
